@@ -1,6 +1,7 @@
 import Gofasta.Lemmas.Enc
 import Gofasta.Model.Variants
 import Gofasta.Spec.Variants
+import Gofasta.Lemmas.Indels
 /-
 C05 — indels are reported in reference coordinates whatever the alignment's columns.
 -/
@@ -101,5 +102,138 @@ example : (getIndelsPair
 
 example : (getIndelsPair ((stringToBytes "GCAG---ACG").map (enc false)) ((stringToBytes "GCAG--GACG").map (enc false))).map
     (fun v => (v.kind, v.pos, v.len)) = [(.ins, 4, 1)] := by decide +kernel
+
+end Gofasta.Props.C05
+
+namespace Gofasta.Props.C05
+open Gofasta Base Model Spec Lemmas
+
+def Accepted (s : List Nat) : Prop := ∀ b ∈ s, b < 256 ∧ enc false b ≠ 0
+
+/-- the columns that are not gaps in both rows -/
+def keepCol (c : Nat × Nat) : Bool := !(c.1 == gapCode && c.2 == gapCode)
+
+theorem insOf_result (s : IndelState) :
+    insOf (if s.insOpen then s.out ++ [({ kind := .ins, pos := (s.insStart : Int), len := s.insLen } : Variant)] else s.out) =
+      insFinish (insProj s) := by
+  unfold insFinish insProj
+  by_cases h : s.insOpen = true
+  · simp [h, insOf_append, insOf]
+  · simp [h]
+
+theorem delOf_result (s : IndelState) :
+    delOf (if s.insOpen then s.out ++ [({ kind := .ins, pos := (s.insStart : Int), len := s.insLen } : Variant)] else s.out) =
+      (delProj s).out := by
+  unfold delProj
+  by_cases h : s.insOpen = true
+  · simp [h, delOf_append, delOf]
+  · simp [h]
+
+/-- **C05.ins_spec** — on encoded rows: the insertion records are exactly the maximal runs of (reference gap, query
+base) columns of the pair with its both-gap columns removed, each at the number of reference bases to its left -/
+theorem ins_spec_enc (ref q : List Nat) :
+    insOf (getIndelsPair ref q) = specInsBy (· == gapCode) 0 ((ref.zip q).filter keepCol) := by
+  rw [getIndelsPair_eq]
+  unfold indelsOfCols
+  simp only []
+  have hk : (fun c : Nat × Nat => !(c.1 == gapCode && c.2 == gapCode)) = keepCol := rfl
+  rw [insOf_result, fold_skip_bothGap, hk, insProj_fold]
+  have hnorm : ∀ c ∈ (ref.zip q).filter keepCol, ¬ (c.1 = gapCode ∧ c.2 = gapCode) := by
+    intro c hc
+    have := (List.mem_filter.1 hc).2
+    simp only [keepCol, Bool.not_eq_true', Bool.and_eq_false_iff, beq_eq_false_iff_ne] at this
+    intro ⟨h1, h2⟩
+    rcases this with h | h
+    · exact h h1
+    · exact h h2
+  have := (insMachine_spec ((ref.zip q).filter keepCol) hnorm).2 0 0 0 []
+  simp only [List.nil_append] at this
+  exact this
+
+/-- **C05.del_spec** — on encoded rows: the deletion records are exactly the maximal runs of query gaps in the
+reference-column subsequence that contain neither the first nor the last reference base -/
+theorem del_spec_enc (ref q : List Nat) :
+    delOf (getIndelsPair ref q) = specDelsBy (· == gapCode) (ref.zip q) := by
+  rw [getIndelsPair_eq]
+  unfold indelsOfCols
+  simp only []
+  rw [delOf_result, delProj_fold, del_fold_refcols]
+  have := (delMachine_spec (refColumnQueryBy (· == gapCode) (ref.zip q)).length (refColumnQueryBy (· == gapCode) (ref.zip q)) 0
+    (by simp)).2 0 0 []
+  simpa [delProj, delOf, specDelsBy] using this
+
+theorem normalise_eq_filter : ∀ (ref q : List Nat), normalise ref q = (ref.zip q).filter fun c => !(isGap c.1 && isGap c.2) := by
+  intro ref
+  induction ref with
+  | nil => intro q; simp [normalise]
+  | cons r rs ih =>
+    intro q
+    cases q with
+    | nil => simp [normalise]
+    | cons x xs =>
+      simp only [normalise, List.zip_cons_cons, List.filter_cons]
+      cases h : (isGap r && isGap x) <;> simp [ih]
+
+theorem zip_map_enc (ref q : List Nat) :
+    (ref.map (enc false)).zip (q.map (enc false)) = (ref.zip q).map (Prod.map (enc false) (enc false)) := by
+  rw [List.zip_map]
+
+theorem isGap_enc (b : Nat) (hb : b < 256 ∧ enc false b ≠ 0) : (enc false b == gapCode) = isGap b := by
+  have := enc_gap_iff b hb.1 hb.2
+  simpa [gapCode, isGap] using this
+
+theorem mem_zip_fst {a b : List Nat} {c : Nat × Nat} (h : c ∈ a.zip b) : c.1 ∈ a ∧ c.2 ∈ b := by
+  have := List.of_mem_zip h
+  exact this
+
+/-- **C05.indels_spec (insertions)** — for every gapped reference row and query row over the accepted alphabet, the
+`ins:` records of the model are the declared maximal runs of the normalised pair -/
+theorem ins_spec (ref q : List Nat) (hr : Accepted ref) (hq : Accepted q) :
+    insOf (getIndelsPair (ref.map (enc false)) (q.map (enc false))) = specIns 0 (normalise ref q) := by
+  rw [ins_spec_enc, zip_map_enc, normalise_eq_filter]
+  have hcols : ∀ c ∈ ref.zip q, (c.1 < 256 ∧ enc false c.1 ≠ 0) ∧ (c.2 < 256 ∧ enc false c.2 ≠ 0) := by
+    intro c hc
+    have := mem_zip_fst hc
+    exact ⟨hr c.1 this.1, hq c.2 this.2⟩
+  -- the filter commutes with the encoding
+  have hfilter : ((ref.zip q).map (Prod.map (enc false) (enc false))).filter keepCol =
+      ((ref.zip q).filter fun c => !(isGap c.1 && isGap c.2)).map (Prod.map (enc false) (enc false)) := by
+    rw [List.filter_map]
+    congr 1
+    apply List.filter_congr
+    intro c hc
+    have h := hcols c hc
+    simp only [Function.comp, keepCol, Prod.map_fst, Prod.map_snd, isGap_enc c.1 h.1, isGap_enc c.2 h.2]
+  rw [hfilter]
+  unfold specIns
+  apply specInsBy_map (enc false) isGap (· == gapCode) _ _ 0 (Nat.le_refl _)
+  intro c hc
+  have hc' : c ∈ ref.zip q := (List.mem_filter.1 hc).1
+  exact isGap_enc c.1 (hcols c hc').1
+
+/-- **C05.indels_spec (deletions)** -/
+theorem del_spec (ref q : List Nat) (hr : Accepted ref) (hq : Accepted q) :
+    delOf (getIndelsPair (ref.map (enc false)) (q.map (enc false))) = specDelsBy isGap (ref.zip q) := by
+  rw [del_spec_enc, zip_map_enc]
+  have hcols : ∀ c ∈ ref.zip q, (c.1 < 256 ∧ enc false c.1 ≠ 0) ∧ (c.2 < 256 ∧ enc false c.2 ≠ 0) := by
+    intro c hc
+    have := mem_zip_fst hc
+    exact ⟨hr c.1 this.1, hq c.2 this.2⟩
+  have hq' : refColumnQueryBy (· == gapCode) ((ref.zip q).map (Prod.map (enc false) (enc false))) =
+      (refColumnQueryBy isGap (ref.zip q)).map (enc false) := by
+    unfold refColumnQueryBy
+    rw [List.filter_map, List.map_map, List.map_map]
+    congr 1
+    apply List.filter_congr
+    intro c hc
+    simp only [Function.comp, Prod.map_fst, isGap_enc c.1 (hcols c hc).1]
+  unfold specDelsBy
+  simp only [hq', List.length_map]
+  congr 1
+  apply specDelRunsBy_map (enc false) isGap (· == gapCode) _ _ 0 (Nat.le_refl _)
+  intro b hb
+  unfold refColumnQueryBy at hb
+  obtain ⟨c, hc, rfl⟩ := List.mem_map.1 hb
+  exact isGap_enc c.2 (hcols c (List.mem_filter.1 hc).1).2
 
 end Gofasta.Props.C05
